@@ -52,9 +52,9 @@ from simkit.rng import seed_globals, unit  # noqa: E402
 from simkit.world import InvalidScenario, Monitor, Violation, result, run_sim  # noqa: E402
 
 PROPERTY = "C18"
-RUNS = {"quick": 9000, "thorough": 1_000_000}
-WALL = {"quick": 40, "thorough": 1500}
-BATCH = {"quick": 60, "thorough": 400}
+RUNS = {"quick": 4000, "thorough": 1_000_000}
+WALL = {"quick": 45, "thorough": 1500}
+BATCH = {"quick": 50, "thorough": 400}
 RULE = (
     "each case is one generated history run on the real engine over a chaos mesh (keyed per-message delays, "
     "duplicating proxy, partition/loss/pause windows): class 'clocks' = 2-5 nodes x <=40 scripted local/send events "
@@ -97,7 +97,7 @@ EXPECTED_PROBES = [
     "fault.partition", "fault.loss", "fault.pause",
 ]
 SHRINK_SKIP = ("klass", "crdt", "variant", "n_nodes")
-SELFTEST_RUNS = 12
+SELFTEST_RUNS = 8
 
 CRDT_CLASSES = {"gcounter": GCounter, "pncounter": PNCounter, "lww": LWWRegister, "orset": ORSet}
 
@@ -639,6 +639,8 @@ def _elem(sc, x):
 def _diagnose(kind, cls, crdt, got, want, spec, seen, where):
     """Signature + message for value != specification."""
     name = cls.__name__
+    phase = where.split(":")[0]
+    where = phase
     if kind in ("gcounter", "pncounter"):
         d = "value-below-specification" if got < want else "value-above-specification"
         return f"C18/counter-spec/{name}/{d}", f"{where}: value {got} but received updates sum to {want}"
@@ -658,9 +660,9 @@ def _diagnose(kind, cls, crdt, got, want, spec, seen, where):
     if any(x not in universe for x in extra):
         d = "element-changed-type-in-dict-round-trip"
     elif extra:
-        d = "removed-element-present-after-" + where.split(":")[0]
+        d = "removed-element-present-after-" + phase
     else:
-        d = "unremoved-add-absent-after-" + where.split(":")[0]
+        d = "unremoved-add-absent-after-" + phase
     return (f"C18/orset-spec/{name}/{d}",
             f"{where}: set is {sorted(map(repr, got))} but specification gives {sorted(map(repr, want))} "
             f"(extra {sorted(map(repr, extra))}, missing {sorted(map(repr, missing))})")
